@@ -1,5 +1,280 @@
 package main
 
-import "verifharness/hx"
+// driver plugin: the four client plugins created through the real constructors
+// (plugin.Create), fed with accepted TCP connections the way client/proxy/proxy.go feeds them
+// (ConnectionInfo), a raw-socket user in front (TLS for https2*), raw echoing backends behind
+// (TLS for *2https).
 
-func drivePlugin(cfg *hx.RunCfg) error { return nil }
+import (
+	"context"
+	"crypto/tls"
+	"fmt"
+	"net"
+	"strings"
+	"time"
+
+	v1 "github.com/fatedier/frp/pkg/config/v1"
+	plugin "github.com/fatedier/frp/pkg/plugin/client"
+	"github.com/fatedier/frp/pkg/transport"
+	"verifharness/hx"
+)
+
+// addTLS starts a TLS backend (route id 0).
+func (b *backends) addTLS(addr string, cfg *tls.Config) (string, error) {
+	ln, err := net.Listen("tcp", net.JoinHostPort(addr, "0"))
+	if err != nil {
+		return "", err
+	}
+	b.lns = append(b.lns, ln)
+	go func() {
+		for {
+			c, err := ln.Accept()
+			if err != nil {
+				return
+			}
+			b.mu.Lock()
+			b.nconn++
+			id := b.nconn
+			b.mu.Unlock()
+			go func() {
+				tc := tls.Server(c, cfg)
+				_ = tc.SetDeadline(time.Now().Add(5 * time.Second))
+				if tc.Handshake() != nil {
+					c.Close()
+					return
+				}
+				_ = tc.SetDeadline(time.Time{})
+				b.serveRW(tc, c, 0, id)
+			}()
+		}
+	}()
+	return ln.Addr().String(), nil
+}
+
+type pluginRig struct {
+	kind    string // v1.PluginHTTP2HTTP ...
+	coqName string
+	p       plugin.Plugin
+	ln      net.Listener
+	opts    pluginOpts
+	tlsIn   bool
+	srcAddr *net.TCPAddr // handed over as ConnectionInfo.SrcAddr (https2* use it as the remote address)
+}
+
+type pluginOpts struct {
+	localAddr   string
+	rewriteHost string
+	headers     map[string]string
+}
+
+func newPluginRig(kind string, o pluginOpts, srcAddr *net.TCPAddr) (*pluginRig, error) {
+	r := &pluginRig{kind: kind, opts: o, srcAddr: srcAddr}
+	var po v1.ClientPluginOptions
+	hs := v1.HeaderOperations{Set: o.headers}
+	switch kind {
+	case v1.PluginHTTP2HTTP:
+		r.coqName = "HrH2H"
+		po = &v1.HTTP2HTTPPluginOptions{Type: kind, LocalAddr: o.localAddr, HostHeaderRewrite: o.rewriteHost, RequestHeaders: hs}
+	case v1.PluginHTTP2HTTPS:
+		r.coqName = "HrH2HS"
+		po = &v1.HTTP2HTTPSPluginOptions{Type: kind, LocalAddr: o.localAddr, HostHeaderRewrite: o.rewriteHost, RequestHeaders: hs}
+	case v1.PluginHTTPS2HTTP:
+		r.coqName, r.tlsIn = "HrHS2H", true
+		po = &v1.HTTPS2HTTPPluginOptions{Type: kind, LocalAddr: o.localAddr, HostHeaderRewrite: o.rewriteHost, RequestHeaders: hs}
+	case v1.PluginHTTPS2HTTPS:
+		r.coqName, r.tlsIn = "HrHS2HS", true
+		po = &v1.HTTPS2HTTPSPluginOptions{Type: kind, LocalAddr: o.localAddr, HostHeaderRewrite: o.rewriteHost, RequestHeaders: hs}
+	}
+	p, err := plugin.Create(kind, plugin.PluginContext{Name: "c02-" + kind}, po)
+	if err != nil {
+		return nil, err
+	}
+	r.p = p
+	ln, err := net.Listen("tcp", net.JoinHostPort(c02Addr, "0"))
+	if err != nil {
+		return nil, err
+	}
+	r.ln = ln
+	go func() {
+		for {
+			c, err := ln.Accept()
+			if err != nil {
+				return
+			}
+			// as client/proxy/proxy.go HandleTCPWorkConnection hands a work connection to the plugin
+			ci := &plugin.ConnectionInfo{Conn: c, UnderlyingConn: c}
+			if r.srcAddr != nil {
+				ci.SrcAddr = r.srcAddr
+			}
+			go r.p.Handle(context.Background(), ci)
+		}
+	}()
+	return r, nil
+}
+
+func (r *pluginRig) close() {
+	r.ln.Close()
+	r.p.Close()
+}
+
+func (r *pluginRig) dial(localIP, serverName string) (*userConn, error) {
+	u, err := dialUser(r.ln.Addr().String(), localIP)
+	if err != nil || !r.tlsIn {
+		return u, err
+	}
+	tc := tls.Client(u.c, &tls.Config{InsecureSkipVerify: true, ServerName: serverName, NextProtos: []string{"http/1.1"}})
+	_ = tc.SetDeadline(time.Now().Add(5 * time.Second))
+	if err := tc.Handshake(); err != nil {
+		u.c.Close()
+		return nil, err
+	}
+	_ = tc.SetDeadline(time.Time{})
+	return newUserConn(tc), nil
+}
+
+func coqPopts(o pluginOpts, hs []hdr) string {
+	return fmt.Sprintf("{| hp_local_addr := %s; hp_rewrite_host := %s; hp_headers := %s |}", S(o.localAddr), S(o.rewriteHost), coqPairs(hs))
+}
+
+func drivePlugin(cfg *hx.RunCfg) error {
+	hx.Quiet()
+	g := hx.NewGen(cfg.Seed + 1000)
+	st := newFwdStats()
+	be := newBackends()
+	defer be.close()
+	plainAddr, err := be.add(c02Addr, 0)
+	if err != nil {
+		return err
+	}
+	tcfg, err := transport.NewServerTLSConfig("", "", "")
+	if err != nil {
+		return err
+	}
+	tlsAddr, err := be.addTLS(c02Addr, tcfg)
+	if err != nil {
+		return err
+	}
+	kinds := []string{v1.PluginHTTP2HTTP, v1.PluginHTTP2HTTPS, v1.PluginHTTPS2HTTP, v1.PluginHTTPS2HTTPS}
+	var cases []string
+	per := cfg.N / (2 * len(kinds))
+	if per < 2 {
+		per = 2
+	}
+	rt := &routeSpec{domain: "p.c02.test", location: "/"}
+	for variant := 0; variant < 2; variant++ {
+		for _, kind := range kinds {
+			o := pluginOpts{localAddr: plainAddr, headers: genHeaderMap(g, cfgReqKeys, false)}
+			if strings.HasSuffix(kind, "https") {
+				o.localAddr = tlsAddr
+			}
+			if variant == 1 || g.Chance(0.3) {
+				o.rewriteHost = g.Pick([]string{"inner.local", "svc.internal:8443"})
+			}
+			if variant == 1 {
+				o.headers["x-from-plugin"] = kind
+			}
+			var src *net.TCPAddr
+			if variant == 1 {
+				src = &net.TCPAddr{IP: net.IPv4(198, 51, 100, byte(1+g.Intn(200))), Port: 1024 + g.Intn(60000)}
+			}
+			pr, err := newPluginRig(kind, o, src)
+			if err != nil {
+				return err
+			}
+			done := 0
+			for done < per {
+				localIP := fmt.Sprintf("127.0.2.%d", 2+g.Intn(250))
+				u, err := pr.dial(localIP, rt.domain)
+				if err != nil {
+					pr.close()
+					return fmt.Errorf("dial plugin %s: %v", kind, err)
+				}
+				seq := 1 + g.Intn(4)
+				for k := 0; k < seq && done < per; k++ {
+					rg := genRequest(g, rt, cfg.Tier, false)
+					for rg.absform {
+						rg = genRequest(g, rt, cfg.Tier, false)
+					}
+					resp := genResponse(g, rg.req.method, cfg.Tier, false)
+					be.script(resp)
+					be.drain()
+					got, err := u.do(rg.req, 20*time.Second)
+					if err != nil {
+						st.fail("impl:plugin-exchange-failed", fmt.Sprintf("%s: %v (%s %s)", kind, err, rg.req.method, rg.req.target), rg.req.target)
+						break
+					}
+					seen := be.waitSeen(5 * time.Second)
+					if seen == nil {
+						st.fail("impl:plugin-backend-saw-nothing", fmt.Sprintf("%s: %s %s -> %d", kind, rg.req.method, rg.req.target, got.status), rg.req.target)
+						break
+					}
+					hs := mapOrder(o.headers, func(c string) (string, bool) {
+						for _, kv := range seen.hdrs {
+							if canonGo(kv[0]) == c {
+								return kv[1], true
+							}
+						}
+						return "", false
+					}, canonGo)
+					// the address the plugin's HTTP server reports as the remote one
+					ip := ""
+					if pr.tlsIn {
+						ip, _, _ = net.SplitHostPort(u.c.LocalAddr().String())
+						if src != nil {
+							ip = src.IP.String()
+						}
+					} else {
+						ip, _, _ = net.SplitHostPort(u.c.LocalAddr().String())
+					}
+					beginCase()
+					cs := endCase(fmt.Sprintf("CPlug %s (%s) (%s) %s (%s) (%s) (%s)", pr.coqName, coqPopts(o, hs), coqReq(rg, ip, pr.tlsIn),
+						S(reencQuery(rg.query)), coqSeen(seen), coqScripted(resp, rg.req.method), coqGotFor(got, resp)))
+					cases = append(cases, cs)
+					done++
+					st.dist["plugin:"+kind]++
+					st.dist["method:"+rg.req.method]++
+					st.distinct[kind+rg.req.method+rg.req.target+fmt.Sprint(len(rg.req.hdrs), resp.status)] = true
+					if len(st.samples) < 2 && len(cs) < 2500 {
+						st.samples = append(st.samples, cs)
+					}
+					// the finding recorded as C02_plugin_http2http_forwarded_for_refuted, observed on the real plugin
+					if kind == v1.PluginHTTP2HTTP {
+						sentXFF := false
+						for _, kv := range rg.req.hdrs {
+							if strings.EqualFold(kv[0], "X-Forwarded-For") {
+								sentXFF = true
+							}
+						}
+						gotXFF := false
+						for _, kv := range seen.hdrs {
+							if strings.EqualFold(kv[0], "X-Forwarded-For") {
+								gotXFF = true
+							}
+						}
+						if sentXFF && !gotXFF {
+							st.dist["finding:http2http-drops-x-forwarded-for"]++
+						}
+					}
+				}
+				u.close()
+			}
+			pr.close()
+		}
+	}
+	cf := &hx.CaseFile{
+		Imports: "From FRP Require Import Corr.C02.\nOpen Scope Z_scope.\n",
+		Typ:     "case",
+		Cases:   cases,
+		Tail: "Definition M := Eval vm_compute in mismatches check_case cases.\nPrint M.\n" +
+			counter("NH2H", "(is_plug HrH2H)") + counter("NH2HS", "(is_plug HrH2HS)") + counter("NHS2H", "(is_plug HrHS2H)") + counter("NHS2HS", "(is_plug HrHS2HS)"),
+	}
+	if err := cf.Write(cfg.Out); err != nil {
+		return err
+	}
+	cfg.St["cases"] = len(cases)
+	cfg.St["distinct_nontrivial"] = len(st.distinct)
+	cfg.St["samples"] = append([]string{}, st.samples...)
+	cfg.St["distribution"] = sortedCounts(st.dist)
+	cfg.St["impl_failures"] = append([]map[string]string{}, st.impl...)
+	return nil
+}
